@@ -255,6 +255,7 @@ func runC27(c *core.Ctx) {
 	checkEthHeadPointer(c)
 	checkRestructHeights(c)
 	checkBtcCommitHeader(c)
+	checkBtcCumulativeWork(c)
 }
 
 func checkBtcCommitHeader(c *core.Ctx) {
